@@ -26,7 +26,10 @@ type AckSeqParams struct {
 type RangeParams struct {
 	Commit bool `json:"commit"`
 	Still  bool `json:"still"` // the rebalance keeps the vBucket in range (control)
-	File   bool `json:"file"`  // file metadata backend: its Load returns every vBucket in the file, not only the requested ones
+	// DuringLoad: the late acknowledgement (and the commit) arrive while the re-opened session is loading its
+	// checkpoints, i.e. after the new assignment has been computed and before the session is up
+	DuringLoad bool `json:"during_load"`
+	File       bool `json:"file"` // file metadata backend: its Load returns every vBucket in the file, not only the requested ones
 }
 
 type RaceParams struct {
@@ -74,6 +77,8 @@ func init() {
 				{Scenario: "c04_range", Params: mustJSON(RangeParams{Commit: true}), Bound: 0},
 				{Scenario: "c04_range", Params: mustJSON(RangeParams{Commit: false}), Bound: 0},
 				{Scenario: "c04_range", Params: mustJSON(RangeParams{Commit: true, Still: true}), Bound: 0},
+				{Scenario: "c04_range", Params: mustJSON(RangeParams{Commit: true, DuringLoad: true}), Bound: 0, Note: "the late acknowledgement and the commit arrive while the re-opened session loads its checkpoints (the new assignment is already in effect)"},
+				{Scenario: "c04_range", Params: mustJSON(RangeParams{Commit: false, DuringLoad: true}), Bound: 0},
 				{Scenario: "c04_range", Params: mustJSON(RangeParams{Commit: true, File: true}), Bound: 0, Note: "file metadata backend: Load returns every vBucket of the file, so the offset table of the shrunk session also has entries for vBuckets that moved away"},
 				{Scenario: "c04_range", Params: mustJSON(RangeParams{Commit: false, File: true}), Bound: 0},
 				{Scenario: "c04_range", Params: mustJSON(RangeParams{Commit: true, Still: true, File: true}), Bound: 0},
@@ -235,6 +240,23 @@ func rangeMain(p RangeParams) {
 		publishInfo(e, 1, 2)
 	}
 	vrt.Sleep(1)
+	var trackBeforeL, writesBeforeL int
+	var entryBeforeL uint64
+	var hadEntryL bool
+	if p.DuringLoad {
+		loads := e.RecMeta.Loads
+		e.RecMeta.OnLoad = func(n int) {
+			if n != loads+1 {
+				return
+			}
+			trackBeforeL, writesBeforeL = len(e.Cons.TrackSeq[1]), len(c.Writes)
+			entryBeforeL, hadEntryL = e.Tracked(1)
+			find(1, 2).Ctx.Ack()
+			if p.Commit {
+				e.Stream.Save()
+			}
+		}
+	}
 	e.Stream.Rebalance()
 	vrt.Sleep(1e9)
 	c.WaitIdle()
@@ -248,9 +270,13 @@ func rangeMain(p RangeParams) {
 	// property is about acknowledgements not ALTERING or creating anything)
 	entryBefore, hadEntry := e.Tracked(1)
 	// late acknowledgement of an event delivered before the rebalance
-	find(1, 2).Ctx.Ack()
-	if p.Commit {
-		e.Stream.Save()
+	if p.DuringLoad {
+		trackBefore, writesBefore, entryBefore, hadEntry = trackBeforeL, writesBeforeL, entryBeforeL, hadEntryL
+	} else {
+		find(1, 2).Ctx.Ack()
+		if p.Commit {
+			e.Stream.Save()
+		}
 	}
 	offs, dirty, _ := e.Stream.GetOffsets()
 	if p.Still {
